@@ -106,9 +106,9 @@ CHECKS = {
 READY = {"C%02d" % i for i in range(1, 21)}
 QUICK_WALL = ("C01 279, C02 150, C03 246, C04 335, C05 293, C06 201, C07 288, C08 304, C09 108, C10 223, C11 180, C12 29, C13 86, C14 286, "
               "C15 148, C16 217, C17 233, C18 191, C19 87, C20 67")
-THOROUGH_WALL = ("run end to end green in the build round (wall s): C02 628, C06 978, C09 463, C12 30, C13 192, C14 463, C15 1417, C16 896, C17 1561, C19 962, C20 63, C18 692, C07 523, C11 384, C01 353, C10 642, C03 361, C08 338, C05 487; "
+THOROUGH_WALL = ("run end to end green in the build round (wall s): C02 628, C06 978, C09 463, C12 30, C13 192, C14 463, C15 1417, C16 896, C17 1561, C19 962, C20 63, C18 692, C07 523, C11 384, C01 353, C10 642, C03 361, C08 338, C05 487, C04 810; "
                  "C01/C03/C04/C05/C08/C10/C11 thorough = union of the quick samples over three seeds (larger enumeration behind VERIF_DEEP=1), "
-                 "C07/C18 thorough = the quick factories over more drafts/collision kinds; C04 was not run end to end; see DESIGN.md 9.7")
+                 "C07/C18 thorough = the quick factories over more drafts/collision kinds; all twenty thorough commands were run end to end; see DESIGN.md 9.7")
 NOT_YET = "check not built yet in this round (design in DESIGN.md section 3); no claim is made"
 
 NA = {}
